@@ -89,7 +89,9 @@ def workload(tier, seed, scale=1.0):
     # special-value bases (primitive-type and word boundaries, repeated digits) with small exponents, both signs
     from ..core import special_values
     for b in special_values()[::(2 if quick else 1)]:
-        for e in (2, 3, 5):
+        for e in (2, 3, 4, 5, 8):
+            if b.bit_length() * e > 3000:
+                continue
             if scale < 1.0 and rnd.random() > scale:
                 continue
             ty = rnd.choice(UTYPES)
